@@ -21,7 +21,6 @@ from __future__ import annotations
 import copy
 import math
 import random
-import struct
 from fractions import Fraction as Fr
 from typing import Any, Dict, List, Optional, Tuple
 
@@ -133,6 +132,7 @@ def build_net(sc: Dict[str, Any]):
 
     g = torch.Generator().manual_seed(sc["wseed"])
     net = SeqNet(sc)
+    gain = float(sc.get("gain", 1.0))
     with torch.no_grad():
         for nm, m in net.named_modules():
             if isinstance(m, (nn.Conv2d, nn.Linear)):
@@ -140,7 +140,7 @@ def build_net(sc: Dict[str, Any]):
                 # generic weights, every channel with its own magnitude (per-channel scales differ)
                 mag = (0.3 + torch.rand(m.weight.shape[0], generator=g)) / math.sqrt(fan)
                 wgt = (torch.rand(m.weight.shape, generator=g) * 2 - 1)
-                m.weight.copy_(wgt * mag.view(-1, *([1] * (wgt.dim() - 1))) * 2.0)
+                m.weight.copy_(wgt * mag.view(-1, *([1] * (wgt.dim() - 1))) * 2.0 * gain)
                 if m.bias is not None:
                     m.bias.copy_((torch.rand(m.bias.shape, generator=g) * 2 - 1) * 0.5)
             elif isinstance(m, (nn.BatchNorm2d, nn.BatchNorm1d)):
@@ -191,6 +191,12 @@ def _exc_name(e: BaseException) -> str:
     return type(e).__name__
 
 
+def _msg(e: BaseException) -> str:
+    """exception text reduced to characters that survive JSON -> TLC -> TLC's printed state unchanged"""
+    ok = set("abcdefghijklmnopqrstuvwxyzABCDEFGHIJKLMNOPQRSTUVWXYZ0123456789 _.,:()=[]{}'-+*/<>")
+    return "".join(c if c in ok else " " for c in str(e))[:120]
+
+
 def _pact_top(q) -> int:
     """top level a PACT quantiser can emit (observed on the real object: level of an input far above the clip)"""
     import torch
@@ -202,11 +208,10 @@ def _pact_top(q) -> int:
 
 def observe_net(sc: Dict[str, Any]) -> Dict[str, Any]:
     import torch
-    import torch.nn as nn
     import torch.nn.functional as F
     from plinio.methods.mps import MPS, MPSType
     from plinio.methods.mps.quant.backends import Backend, integerize_arch
-    from plinio.methods.mps.quant.quantizers import DummyQuantizer, PACTAct
+    from plinio.methods.mps.quant.quantizers import DummyQuantizer
     import plinio.methods.mps.quant.nn as qnn
 
     backend = sc["backend"]
@@ -233,8 +238,8 @@ def observe_net(sc: Dict[str, Any]) -> Dict[str, Any]:
         mps.eval()
         fake = mps.export()
         fake.eval()
-    except Exception as e:                                   # not the object of C14: skipped and counted
-        tr.update(stage="mps", exc=_exc_name(e), msg=str(e)[:160])
+    except Exception as e:                                   # not the object of C14 (the driver treats it as machinery)
+        tr.update(stage="mps", exc=_exc_name(e), msg=_msg(e))
         return tr
     # F22 (observation only): export() shares quantiser objects with the NAS model, integerize_arch flips their flags
     fq = copy.deepcopy(fake)
@@ -243,7 +248,7 @@ def observe_net(sc: Dict[str, Any]) -> Dict[str, Any]:
     try:
         integ = integerize_arch(copy.deepcopy(fake), bk, backend_kwargs=kwargs)
     except Exception as e:
-        tr.update(stage="integerize", exc=_exc_name(e), msg=str(e)[:160])
+        tr.update(stage="integerize", exc=_exc_name(e), msg=_msg(e))
         return tr
 
     g = torch.Generator().manual_seed(sc["xseed"])
@@ -270,15 +275,13 @@ def observe_net(sc: Dict[str, Any]) -> Dict[str, Any]:
         hooks.append(m.register_forward_hook(hook))
     try:
         with torch.no_grad():
-            y_int_net = integ(x_int)
+            integ(x_int)
     except Exception as e:
-        tr.update(stage="forward", exc=_exc_name(e), msg=str(e)[:160])
+        tr.update(stage="forward", exc=_exc_name(e), msg=_msg(e))
         return tr
     finally:
         for h in hooks:
             h.remove()
-    with torch.no_grad():
-        y_fake_net = fq(x)
 
     rng = random.Random(sc["xseed"] * 7919 + 13)
     names = [s["name"] for s in tr["spec"]]
@@ -402,7 +405,6 @@ def observe_net(sc: Dict[str, Any]) -> Dict[str, Any]:
             yi = (yout - lo_out).double() if not last else yout.double()
             yf = y_f.double()
             # per-element quantities (python ints / Fractions; tensors are tiny)
-            shape_o = tuple(yout.shape)
             flat_acc_u = acc_u.reshape(-1).tolist()
             flat_abs = absacc.reshape(-1).tolist()
             flat_acc_r = acc_r.reshape(-1).tolist()
@@ -417,6 +419,7 @@ def observe_net(sc: Dict[str, Any]) -> Dict[str, Any]:
                 return (idx // per_c) % C
 
             two_sh = 1 << sh
+            ADD = ZP if ZP is not None else AB
             elems = []
             maxdiff = 0
             maxB = Fr(0)
@@ -431,7 +434,10 @@ def observe_net(sc: Dict[str, Any]) -> Dict[str, Any]:
                     d = int(d) if d == int(d) else -1
                     b_apx = abs(X) * approx_c[c]
                     b_stab = T[c] * (abs(au) * c1 + abs(B[c]) * c2)
-                    b_f32 = f32u * T[c] * (int(flat_abs[idx]) + abs(B[c])) + Fr(1, 2 ** 10)
+                    # float32 evaluation of the fake layer (worst-case summation bound) and of the integer layer's
+                    # own (acc*scale + addend)/2^shift
+                    b_f32 = f32u * T[c] * (int(flat_abs[idx]) + abs(B[c])) + Fr(1, 2 ** 10) + \
+                        Fr(abs(int(flat_acc_r[idx]) * S[c]) + abs(ADD[c]), two_sh) / 2 ** 22
                     Bt = b_apx + b_stab + b_f32
                     elems.append((idx, c, d, b_apx, b_stab, b_f32, Bt))
                     if d < 0:
@@ -489,6 +495,9 @@ def observe_net(sc: Dict[str, Any]) -> Dict[str, Any]:
                         unit = T[c]
                         tol = unit * abs(au) * e_in + abs(au + B[c]) * approx_c[c]
                     tol += f32u * unit * (int(flat_abs[idx]) + abs(B[c])) * 2 + Fr(1, 10 ** 9)
+                    if backend == "maupiti":
+                        # float32 evaluation of (acc'*scale + zero_point)/2^shift: two large terms that cancel
+                        tol += Fr(abs(int(flat_acc_r[idx]) * S[c]) + abs(ADD[c]), two_sh) / 2 ** 22
                     if not math.isfinite(flat_raw[idx]):
                         fin_ok = False
                         continue
@@ -500,9 +509,193 @@ def observe_net(sc: Dict[str, Any]) -> Dict[str, Any]:
                 rec["maxdiff"] = 0
                 rec["bound1024"] = 0
                 rec["samples"] = []
-                tr["final"] = {"name": nm, "finite": fin_ok, "ratio1000": cap(ceil_fr(worst * 1000)),
-                               "worst": worst_s or {}, "int_out": _is_int_tensor(yout)}
+                ws = worst_s or {"c": 0, "got1e6": 0, "logit1e6": 0}
+                tr["final"] = {"name": nm, "conv": isconv, "finite": fin_ok, "ratio1000": cap(ceil_fr(worst * 1000)),
+                               "c": ws["c"], "got1e6": ws["got1e6"], "logit1e6": ws["logit1e6"],
+                               "int_out": _is_int_tensor(yout)}
         tr["layers"].append(rec)
     tr["stage"] = "done"
-    # F22 (observation): did integerize_arch on a deep copy leave the NAS model's quantisers alone?  (it must - we copied)
     return tr
+
+
+# ------------------------------------------------------------------------------------------------
+# replay of IntegerizeMC states on the real backend classes (spec -> code)
+# ------------------------------------------------------------------------------------------------
+class _StubQ:
+    """Stands in for a plinio Quantizer when a backend layer class is driven directly: supplies an exactly
+    dyadic scale and passes already-integer tensors through.  Only the attributes the backend classes read."""
+
+    def __init__(self, scale, precision):
+        self._scale = scale
+        self.precision = precision
+        self.dequantize = True
+
+    @property
+    def scale(self):
+        return self._scale
+
+
+class _StubW(_StubQ):
+    def __call__(self, w):
+        return w
+
+
+class _StubB(_StubQ):
+    def __call__(self, b, s_x, s_w):
+        return b
+
+
+def _classes():
+    from plinio.methods.mps.quant.backends.match.nn import MATCHConv2d, MATCHLinear
+    from plinio.methods.mps.quant.backends.maupiti.nn import MAUPITIConv2d, MAUPITILinear
+    return {("match", "lin"): MATCHLinear, ("match", "conv"): MATCHConv2d, ("match", "convpad"): MATCHConv2d,
+            ("maupiti", "lin"): MAUPITILinear, ("maupiti", "conv"): MAUPITIConv2d, ("maupiti", "convpad"): MAUPITIConv2d}
+
+
+def _int_of(v: float) -> Tuple[bool, int]:
+    if not math.isfinite(v) or v != math.floor(v):
+        return False, 0
+    return True, int(v)
+
+
+def run_tiny(sc: Dict[str, Any]) -> Dict[str, Any]:
+    """One "done" state of IntegerizeMC mode "layer" on a real backend layer object."""
+    import torch
+    import torch.nn as nn
+    import torch.nn.functional as F
+    backend, cls = sc["backend"], sc["cls"]
+    mau = backend == "maupiti"
+    tr = dict(sc)
+    tr.update(kind="tiny", sbit=16 if mau else sc["sbit"], spos=32 if mau else sc["spos"],
+              exc="", scale=big(0), shift=0, addend=big(0), out=0, outint=False, offb=False)
+    w1, w2 = sc["w"]
+    x1, x2 = sc["x"]
+    T = sc["tm"] / float(2 ** sc["te"])
+    with torch.no_grad():
+        if cls == "lin":
+            base = nn.Linear(2, 1, bias=True)
+            base.weight.copy_(torch.tensor([[float(w1), float(w2)]]))
+            xin = torch.tensor([[float(x1), float(x2)]])
+        elif cls == "conv":
+            base = nn.Conv2d(2, 1, 1, bias=True)
+            base.weight.copy_(torch.tensor([float(w1), float(w2)]).view(1, 2, 1, 1))
+            xin = torch.tensor([float(x1), float(x2)]).view(1, 2, 1, 1)
+        else:                                   # convpad: 3x3 kernel, padding 1, 1x1 image; x2 is the padded tap
+            if x2 != 0:
+                raise ValueError("convpad replays only states with x2 = 0")
+            base = nn.Conv2d(1, 1, 3, padding=1, bias=True)
+            wt = torch.zeros(1, 1, 3, 3)
+            wt[0, 0, 1, 1] = float(w1)
+            wt[0, 0, 0, 0] = float(w2)
+            base.weight.copy_(wt)
+            xin = torch.tensor([float(x1)]).view(1, 1, 1, 1)
+        base.bias.copy_(torch.tensor([float(sc["b"])]))
+    in_q = _StubQ(torch.tensor(1.0), sc["ib"])
+    out_q = _StubQ(torch.tensor(1.0), sc["ob"])
+    w_q = _StubW(torch.tensor([T], dtype=torch.float32), 8)
+    b_q = _StubB(torch.tensor([T], dtype=torch.float32), 32)
+    if float(w_q.scale[0]) != T:
+        raise ValueError("target not representable in float32")
+    C = _classes()[(backend, cls)]
+    try:
+        il = C(base, in_q, out_q, w_q, b_q) if mau else C(base, in_q, out_q, w_q, b_q,
+                                                          scale_bit=sc["sbit"], shift_pos=sc["spos"])
+        il.eval()
+        lo_in = -(2 ** (sc["ib"] - 1)) if mau else 0
+        with torch.no_grad():
+            y = il(xin + lo_in)
+    except Exception as e:
+        tr["exc"] = _exc_name(e)
+        return tr
+    S = int(il.scale.reshape(-1)[0].item())
+    sh = int(il.shift.reshape(-1)[0].item())
+    add_t = il._zero_point if mau else il.add_bias
+    ok_a, addend = _int_of(float(add_t.reshape(-1)[0].item()))
+    ok_o, out = _int_of(float(y.reshape(-1)[0].item()))
+    # accumulator as the real layer's requantiser saw it (only to decide whether float32 evaluated it exactly)
+    with torch.no_grad():
+        xi = (xin + lo_in).double()
+        if cls == "lin":
+            acc = F.linear(xi, il.weight.double())
+        elif mau:
+            acc = F.conv2d(il.pad(xi), il.weight.double(), None, il.stride, 0, il.dilation, il.groups)
+        else:
+            acc = F.conv2d(xi, il.weight.double(), None, il.stride, il.padding, il.dilation, il.groups)
+    ar = int(acc.reshape(-1)[0].item())
+    exact = Fr(ar * S + addend, 1 << sh)
+    fl_ex = exact.numerator // exact.denominator
+    mag = abs(ar * S) + abs(addend)
+    if mag < 2 ** 24:
+        offb = True
+    else:
+        dist = min(exact - fl_ex, fl_ex + 1 - exact)
+        offb = dist > Fr(mag, 1 << sh) / 2 ** 21
+    tr.update(scale=big(S), shift=sh, addend=big(addend if ok_a else 0), out=cap(out), outint=bool(ok_o and ok_a),
+              offb=bool(offb))
+    return tr
+
+
+def run_approx(sc: Dict[str, Any]) -> Dict[str, Any]:
+    """One "sel" state of IntegerizeMC mode "approx" on the real _integer_approximation of one class."""
+    import types
+    import torch
+    mau = sc["backend"] == "maupiti"
+    tr = dict(sc)
+    tr.update(kind="approx", cls=sc["backend"] + "/" + sc["cls"], sbit=16 if mau else sc["sbit"],
+              spos=32 if mau else sc["spos"], exc="", scales=[], shift=0)
+    C = _classes()[(sc["backend"], sc["cls"])]
+    me = types.SimpleNamespace(scale_bit=sc["sbit"], shift_pos=sc["spos"])
+    s_w = torch.tensor([t / float(2 ** sc["te"]) for t in sc["tms"]], dtype=torch.float32)
+    bias = torch.tensor([float(b) for b in sc["bs"]], dtype=torch.float32)
+    if [int(v) for v in bias.tolist()] != list(sc["bs"]):
+        raise ValueError("bias not representable in float32")
+    try:
+        scale_t, shift_t = C._integer_approximation(me, s_w, torch.tensor(1.0), torch.tensor(1.0), bias)
+    except Exception as e:
+        tr["exc"] = _exc_name(e)
+        return tr
+    tr["scales"] = [big(int(v)) for v in scale_t.reshape(-1).tolist()]
+    tr["shift"] = int(shift_t.reshape(-1)[0].item())
+    return tr
+
+
+# ------------------------------------------------------------------------------------------------
+# parallel execution
+# ------------------------------------------------------------------------------------------------
+def _init_worker():
+    import torch
+    torch.set_num_threads(1)
+
+
+def _run_one(sc):
+    from .core import use_repo
+    from . import tlc
+    use_repo()
+    try:
+        if sc["kind"] == "net":
+            return observe_net(sc)
+        if sc["kind"] == "tiny":
+            return run_tiny(sc)
+        if sc["kind"] == "approx":
+            return run_approx(sc)
+        raise ValueError(sc["kind"])
+    except Exception:       # a crash of the harness itself: never a verdict, always a machinery failure
+        import json
+        import traceback
+        raise tlc.MachineryError("harness crashed on scenario " + json.dumps(sc, default=str)[:3000] + "\n"
+                                 + traceback.format_exc(limit=8)) from None
+
+
+def run_scenarios(scs: List[Dict[str, Any]], procs: int = 0) -> List[Dict[str, Any]]:
+    import os
+    from concurrent.futures import ProcessPoolExecutor
+    if not scs:
+        return []
+    procs = procs or min(10, max(1, (os.cpu_count() or 4) - 4))
+    if len(scs) < 8 or procs == 1:
+        _init_worker()
+        return [_run_one(s) for s in scs]
+    import multiprocessing as mp
+    ctx = mp.get_context("fork")
+    with ProcessPoolExecutor(max_workers=procs, mp_context=ctx, initializer=_init_worker) as ex:
+        return list(ex.map(_run_one, scs, chunksize=max(1, min(64, len(scs) // (procs * 8)))))
